@@ -50,7 +50,7 @@ def draw_cfg(st):
                 "outcome": st.choose(2, "outcome"), "in_action": st.choose(5, "in_action") != 4,
                 "stagger": st.choose(3, "stagger")}
     cfg = {
-        "mode": "nodes", "world": "threads", "late_remote": True,
+        "mode": "nodes", "world": "threads", "late_remote": True, "double_preserve": True,
         "max_ops": [10, 20, 35][st.choose(3, "size")],
         "max_depth": 2 + st.choose(4, "depth"),
         "value_depth": 0,
